@@ -57,7 +57,7 @@ func TestC12_STSUpgradeHandlerCallsGetter(t *testing.T) {
 	in.Write([]byte(":srv CAP * ACK :sts\r\n"))
 	select {
 	case <-finished:
-	case <-time.After(3 * time.Second):
+	case <-time.After(15 * time.Second):
 		t.Fatal("deadlock: the STS_UPGRADE_INIT handler calls GetNick while handleCAP holds the state lock and waits for it")
 	}
 }
@@ -76,7 +76,7 @@ func TestC12_CTCPHandlerRegisters(t *testing.T) {
 	in.Write([]byte(":a!b@c PRIVMSG nick :\x01FOO x\x01\r\n"))
 	select {
 	case <-finished:
-	case <-time.After(3 * time.Second):
+	case <-time.After(15 * time.Second):
 		t.Fatal("deadlock: a CTCP handler calls CTCP.Clear while CTCP.call holds CTCP.mu.RLock")
 	}
 	c.Close()
@@ -94,7 +94,7 @@ func TestC12_STSFallbackHandlerCallsIsConnected(t *testing.T) {
 	go func() { _ = c.Connect() }()
 	select {
 	case <-finished:
-	case <-time.After(8 * time.Second):
+	case <-time.After(20 * time.Second):
 		t.Fatal("deadlock: the STS_ERR_FALLBACK handler calls IsConnected while internalConnect holds Client.mu")
 	}
 }
@@ -147,9 +147,20 @@ func TestC12_CloseDuringConnect(t *testing.T) {
 func TestC12_FingerAfterDisconnect(t *testing.T) {
 	c := locksClient()
 	in, done := locksMock(c)
-	time.Sleep(100 * time.Millisecond)
-	c.Close()
-	<-done
+	// close a live connection; repeat until Connect returns (a Close before the connect
+	// goroutine got going is a no-op)
+	for k := 0; k < 20000 && !c.IsConnected(); k++ {
+		time.Sleep(200 * time.Microsecond)
+	}
+closed:
+	for {
+		c.Close()
+		select {
+		case <-done:
+			break closed
+		case <-time.After(50 * time.Millisecond):
+		}
+	}
 	in.Close()
 	ev := girc.ParseEvent(":a!b@c PRIVMSG nick :\x01FINGER\x01")
 	panicked := make(chan interface{}, 1)
@@ -189,35 +200,36 @@ func TestC12_UptimeDuringTeardown(t *testing.T) {
 				}
 			}()
 		}
-		time.Sleep(2 * time.Millisecond)
-		// Close is a no-op until the connect goroutine has published its cancel function (on a
-		// loaded machine that can take longer than the sleep above): keep closing until Connect returns.
-		closer := make(chan struct{})
-		go func() {
-			for {
-				c.Close()
-				select {
-				case <-closer:
-					return
-				case <-time.After(5 * time.Millisecond):
-				}
-			}
-		}()
-		select {
-		case p := <-panicked:
-			atomic.StoreInt32(&stop, 1)
-			t.Fatalf("cycle %d: Uptime/ConnSince panicked during the teardown: %v", cycle, p)
-		case <-done:
-		case <-time.After(30 * time.Second):
-			atomic.StoreInt32(&stop, 1)
+		// The Close has to tear down a LIVE connection: wait until it is up (on a loaded machine
+		// the connect goroutine may not have started yet, and a Close before that is a no-op),
+		// and repeat the Close until Connect returns.
+		for k := 0; k < 20000 && !c.IsConnected(); k++ {
+			time.Sleep(200 * time.Microsecond)
+		}
+		c.Close()
+		deadline := time.After(30 * time.Second)
+		again := time.NewTicker(50 * time.Millisecond)
+	wait:
+		for {
 			select {
 			case p := <-panicked:
-				t.Fatalf("cycle %d: Uptime/ConnSince panicked (%v) with Client.mu still read-locked: Connect never returns", cycle, p)
-			default:
-				t.Fatal("connect did not return")
+				atomic.StoreInt32(&stop, 1)
+				t.Fatalf("cycle %d: Uptime/ConnSince panicked during the teardown: %v", cycle, p)
+			case <-done:
+				break wait
+			case <-again.C:
+				c.Close()
+			case <-deadline:
+				atomic.StoreInt32(&stop, 1)
+				select {
+				case p := <-panicked:
+					t.Fatalf("cycle %d: Uptime/ConnSince panicked (%v) with Client.mu still read-locked: Connect never returns", cycle, p)
+				default:
+					t.Fatal("connect did not return")
+				}
 			}
 		}
-		close(closer)
+		again.Stop()
 		atomic.StoreInt32(&stop, 1)
 		wg.Wait()
 		in.Close()
